@@ -155,18 +155,21 @@ Print Assumptions C06_declash_unique_refuted.
 
 (* ------------------------------------------------------------------------------------------------ units *)
 
-(* transferUnitsRenamingIfRequired: a units is re-used exactly when the target has an equivalent one (the first, and
+(* home = the model in which the references of the transferred units are read (its own model, or none for a parent-less
+   clone); q = the name under which it is listed there (FlattenDefs.transfer_home / transfer_qname).
+   transferUnitsRenamingIfRequired: a units is re-used exactly when the target has an equivalent one (the first, and
    nothing is added); otherwise it is appended under a name no units of the target has (its own, else name_k);
    changedNames says which *)
 Theorem C06_units_transfer_reuse_or_fresh : forall fuel fx libs orphan u s s' moved changed fname,
   transfer fuel fx libs orphan u s = FOk (s', moved, changed, fname) ->
-  let home := if orphan then [u] else us_S s in
+  let home := transfer_home orphan u s in
+  let q := transfer_qname orphan u in
   (moved = false /\ us_T s' = us_T s /\ us_S s' = us_S s /\ fname = u_name u /\
-   exists t, In t (us_T s) /\ units_equivalent libs [us_T s; home] 0 (u_name t) 1 (u_name u) = FOk true /\
+   exists t, In t (us_T s) /\ units_equivalent libs [us_T s; home] 0 (u_name t) 1 q = FOk true /\
      ((u_name t = u_name u /\ changed = []) \/ (u_name t <> u_name u /\ changed = [(u_name u, u_name t)])))
   \/
   (moved = true /\
-   (forall t, In t (us_T s) -> units_equivalent libs [us_T s; home] 0 (u_name t) 1 (u_name u) = FOk false) /\
+   (forall t, In t (us_T s) -> units_equivalent libs [us_T s; home] 0 (u_name t) 1 q = FOk false) /\
    exists T1 u', grows (us_T s) T1 /\ us_T s' = T1 ++ [u'] /\ u_name u' = fname /\ u_imp u' = u_imp u /\
      ~ In fname (map u_name T1) /\
      ((fname = u_name u /\ changed = []) \/
@@ -195,9 +198,10 @@ Theorem C06_units_meaning_partial : forall fuel fx libs orphan u s s' moved chan
   transfer fuel fx libs orphan u s = FOk (s', moved, changed, fname) ->
   u_imp u = None -> std_only (u_defs u) ->
   (orphan = false -> find_units (u_name u) (us_S s) = Some u) ->
-  let home := if orphan then [u] else us_S s in
+  let home := transfer_home orphan u s in
+  let q := transfer_qname orphan u in
   let usage_name := match changed with [(_, n)] => n | _ => u_name u end in
-  units_equivalent libs [us_T s'; home] 0 usage_name 1 (u_name u) = FOk true.
+  units_equivalent libs [us_T s'; home] 0 usage_name 1 q = FOk true.
 Proof. exact FlattenProofs.transfer_preserves_meaning_partial. Qed.
 Print Assumptions C06_units_meaning_partial.
 
